@@ -221,4 +221,11 @@ func (borderRadius *borderRadiusTracker) compactRules(rules []css_ast.Rule, keyR
 		KeyRange:  keyRange,
 		Important: borderRadius.important,
 	}}
+
+	// All corners now live in the combined declaration (see the comment in
+	// "boxTracker.compactRules" for why this matters)
+	for i := range borderRadius.corners {
+		borderRadius.corners[i].ruleIndex = lastIndex
+		borderRadius.corners[i].wasSingleRule = false
+	}
 }
